@@ -772,6 +772,11 @@ func RunCell(c *Cell) (res *Result) {
 			if f := os.Getenv("SSL_CERT_FILE"); f != "" {
 				cmd.Env = append(cmd.Env, "SSL_CERT_FILE="+f) // the plugin shares the machine's trust store
 			}
+			if len(clients) > 0 {
+				if rc := clients[0].ReattachConfig(); rc != nil {
+					cmd.Env = append(cmd.Env, "VP_SIBLING_ADDR="+rc.Addr.String())
+				}
+			}
 			lastCmd = cmd
 			cfg := mkConfig()
 			if c.Host.SharedConfig {
